@@ -6,6 +6,8 @@ from ..tables import t5_derivs
 def run(ctx: Ctx) -> None:
     t5_derivs.run_derivatives(ctx)
     t5_derivs.run_stencils(ctx)
+    t5_derivs.run_flowfields_curl(ctx)
+    ctx.floor("T5.flowfields-curl", 8)
     ctx.floor("T5.stencil", 30)
     ctx.floor("T5.first-order", 12)
     ctx.floor("T5.jacobian", 2)
